@@ -54,6 +54,7 @@ func (s *slaveConnection) errors() <-chan *Error {
 func (s *slaveConnection) close() {
 	s.destruction.Do(
 		func() {
+			verifPoint("close.begin")
 			if s.done != nil {
 				close(s.done)
 			}
@@ -61,6 +62,7 @@ func (s *slaveConnection) close() {
 				s.dc.Close()
 				_log.Infof("Close closing slave socket to unblock reads")
 			}
+			verifPoint("close.end")
 		})
 }
 
@@ -85,26 +87,36 @@ func (s *slaveConnection) startDumpFromBinlogPosition(ctx context.Context, serve
 
 	go func() {
 		defer func() {
+			verifPoint("reader.closeEvents")
 			close(eventChan)
+			verifPoint("reader.exit")
 		}()
 
 		for {
+			verifPoint("reader.read")
 			ev, err := s.readBinlogEvent()
 			if err != nil {
+				verifPoint("reader.readError")
 				_log.Errorf("startDumpFromBinlogPosition readBinlogEvent fail. reason: %v", err)
 				s.errChan <- err
+				verifPoint("reader.published")
 				close(s.errChan)
 				return
 			}
+			verifPoint("reader.handoff")
 
 			select {
 			case eventChan <- ev:
+				verifPoint("reader.handedOff")
 			case <-ctx.Done():
+				verifPoint("reader.sawCtx")
 				_log.Infof("startDumpFromBinlogPosition stop by ctx. reason: %v", ctx.Err())
 				s.errChan <- newError(ctx.Err()).msgf("startDumpFromBinlogPosition cancel")
+				verifPoint("reader.published")
 				close(s.errChan)
 				return
 			case <-s.done:
+				verifPoint("reader.sawDone")
 				_log.Infof("startDumpFromBinlogPosition stop by close")
 				close(s.errChan)
 				return
